@@ -8,7 +8,9 @@ pub fn generate(g: &mut Gen) {
     // deterministic core: every activation x direction x rank, generic values, kink and special values
     let kink: Vec<f32> = vec![0.0, -0.0, 1e-45, -1e-45, 1e-30, -1e-30, 1.0, -1.0, 88.0, -88.0, 89.0, -89.0, 104.0, -104.0, 1e4, -1e4, 3e38, -3e38, f32::MAX, f32::MIN];
     for a in ACTS.iter() {
-        let tol = if *a == "softmax" { Tol::Tight } else { Tol::Exact };
+        // piecewise-linear activations have a unique IEEE result; sigmoid / tanh / soft-max go through exp and
+        // divisions, where a correct implementation may round differently
+        let tol = if ["softmax", "sigmoid", "tanh"].contains(a) { Tol::Tight } else { Tol::Exact };
         for (c, h, w) in [(1usize, 1usize, 1usize), (1, 2, 3), (2, 2, 2), (3, 1, 2)] {
             let t3 = g.tensor_of(&Shape::Triple(c, h, w), false);
             let t1 = g.tensor_of(&Shape::Single(c * h * w), false);
@@ -19,12 +21,12 @@ pub fn generate(g: &mut Gen) {
         }
         if *a != "softmax" {
             let t = Tensor::single(kink.clone());
-            g.push(format!("act.fwd {} {}", a, qt(&t)), Tol::Exact, &format!("{}/fwd/kink+extremes", a), true);
-            g.push(format!("act.bwd {} {}", a, qt(&t)), Tol::Exact, &format!("{}/bwd/kink+extremes", a), true);
+            g.push(format!("act.fwd {} {}", a, qt(&t)), tol, &format!("{}/fwd/kink+extremes", a), true);
+            g.push(format!("act.bwd {} {}", a, qt(&t)), tol, &format!("{}/bwd/kink+extremes", a), true);
             // the same values through the 3-D copy
             let t3 = Tensor::triple(vec![kink[..10].chunks(5).map(|c| c.to_vec()).collect(), kink[10..].chunks(5).map(|c| c.to_vec()).collect()]);
-            g.push(format!("act.fwd {} {}", a, qt(&t3)), Tol::Exact, &format!("{}/fwd/kink+extremes/3d", a), true);
-            g.push(format!("act.bwd {} {}", a, qt(&t3)), Tol::Exact, &format!("{}/bwd/kink+extremes/3d", a), true);
+            g.push(format!("act.fwd {} {}", a, qt(&t3)), tol, &format!("{}/fwd/kink+extremes/3d", a), true);
+            g.push(format!("act.bwd {} {}", a, qt(&t3)), tol, &format!("{}/bwd/kink+extremes/3d", a), true);
         }
         // unsupported ranks
         let d = g.tensor_of(&Shape::Double(2, 2), false);
@@ -51,7 +53,7 @@ pub fn generate(g: &mut Gen) {
     // seeded random stream
     for _ in 0..g.n(300, 6000) {
         let a = g.rng().pick(&ACTS);
-        let tol = if a == "softmax" { Tol::Tight } else { Tol::Exact };
+        let tol = if ["softmax", "sigmoid", "tanh"].contains(&a) { Tol::Tight } else { Tol::Exact };
         let n = g.rng().range(1, 16);
         let wide = g.rng().below(3) == 0;
         let v: Vec<f32> = (0..n)
